@@ -30,60 +30,68 @@ VARIABLES snd,      \* completed sends: sequence of [v, c, r, ok, p]   (c/r: cal
           cur,      \* per thread: [op, v, c]  operation in progress ("none" | "send" | "poll" | "create" | "drop")
           lis,      \* per listener index: [st, cc, cr, dc, how, del, ended, mate]   st: "none" | "live" | "dropped"
           adr,      \* value -> payload address seen first (as a set of <<v, addr>>)
-          parked, drv, cancelled, held, resv, churn
+          parked, drv, cancelled, held, resv, churn,
+          rw        \* [on: atomic operations are recorded in this run; open: threads that are, right now, between the update of
+                    \*  used_streams_count and the end of the in-place rebuild of the live-listener list (create_stream_id /
+                    \*  report_stream_dropped .. sync_vacant_and_used_streams)]
 
-vars == <<snd, cur, lis, adr, parked, drv, cancelled, held, resv, churn>>
+vars == <<snd, cur, lis, adr, parked, drv, cancelled, held, resv, churn, rw>>
 tvars == <<vars, l, bad>>
 
 On(name) == name \in Checks
-NoCur == [op |-> "none", v |-> 0, c |-> 0]
+NoCur == [op |-> "none", v |-> 0, c |-> 0, ch |-> FALSE]
 NoLis == [st |-> "none", cc |-> 0, cr |-> 0, dc |-> 0, dr |-> 0, how |-> "new", del |-> <<>>, ended |-> FALSE, mate |-> -1]
 LiveAt0(k) == [s \in Ls |-> IF s < k THEN [NoLis EXCEPT !.st = "live"] ELSE NoLis]
 
 Init0 == /\ snd = <<>> /\ cur = [p \in Procs |-> NoCur] /\ lis = LiveAt0(0) /\ adr = {}
          /\ parked = [p \in Procs |-> FALSE] /\ drv = [p \in Procs |-> -1] /\ cancelled = 0 /\ held = 0 /\ resv = 0 /\ churn = 0
+         /\ rw = [on |-> FALSE, open |-> {}]
 TraceInit == Init0 /\ TBInit
 
 TReset == /\ Ev.k = "reset"
           /\ snd' = <<>> /\ cur' = [p \in Procs |-> NoCur] /\ lis' = LiveAt0(Ev.x.streams) /\ adr' = {}
           /\ parked' = [p \in Procs |-> FALSE] /\ drv' = [p \in Procs |-> -1] /\ cancelled' = 0 /\ held' = 0 /\ resv' = 0 /\ churn' = 0
+          /\ rw' = [on |-> ("ops" \in DOMAIN Ev.x /\ Ev.x.ops), open |-> {}]
 
 SendOps == {"send", "send_with", "send_async", "send_reserved"}
 Range(s) == {s[i] : i \in 1..Len(s)}
 Pos(s, v) == CHOOSE i \in 1..Len(s) : s[i] = v
 
 TCall == /\ Ev.k = "call" /\ ~IsNopCall
-         /\ cur' = IF Ev.x.op \in SendOps THEN [cur EXCEPT ![P] = [op |-> "send", v |-> Ev.x.v, c |-> l]]
-                   ELSE IF Ev.x.op = "poll" THEN [cur EXCEPT ![P] = [op |-> "poll", v |-> Ev.x.s, c |-> l]]
-                   ELSE IF Ev.x.op = "create" THEN [cur EXCEPT ![P] = [op |-> "create", v |-> 0, c |-> l]]
-                   ELSE IF Ev.x.op = "drop_stream" THEN [cur EXCEPT ![P] = [op |-> "drop", v |-> Ev.x.s, c |-> l]]
-                   ELSE IF Ev.x.op = "running" THEN [cur EXCEPT ![P] = [op |-> "running", v |-> 0, c |-> l]]
+         /\ cur' = IF Ev.x.op \in SendOps THEN [cur EXCEPT ![P] = [op |-> "send", v |-> Ev.x.v, c |-> l, ch |-> (rw.open # {})]]
+                   ELSE IF Ev.x.op = "poll" THEN [cur EXCEPT ![P] = [op |-> "poll", v |-> Ev.x.s, c |-> l, ch |-> FALSE]]
+                   ELSE IF Ev.x.op \in {"create", "create_if_room"} THEN [cur EXCEPT ![P] = [op |-> "create", v |-> 0, c |-> l, ch |-> FALSE]]
+                   ELSE IF Ev.x.op = "drop_stream" THEN [cur EXCEPT ![P] = [op |-> "drop", v |-> Ev.x.s, c |-> l, ch |-> FALSE]]
+                   ELSE IF Ev.x.op = "running" THEN [cur EXCEPT ![P] = [op |-> "running", v |-> 0, c |-> l, ch |-> FALSE]]
                    ELSE cur
          /\ lis' = IF Ev.x.op = "drop_stream" /\ Ev.x.s \in Ls /\ lis[Ev.x.s].st = "live" THEN [lis EXCEPT ![Ev.x.s].dc = l] ELSE lis
-         /\ churn' = IF Ev.x.op \in {"create", "drop_stream"} THEN churn + 1 ELSE churn
+         /\ churn' = IF Ev.x.op \in {"create", "create_if_room", "drop_stream"} THEN churn + 1 ELSE churn
          /\ cancelled' = IF Ev.x.op = "cancel_all" /\ cancelled = 0 THEN l ELSE cancelled
          /\ drv' = IF Ev.x.op = "drive" THEN [drv EXCEPT ![P] = Ev.x.s] ELSE drv
-         /\ UNCHANGED <<snd, adr, parked, held, resv>>
+         /\ UNCHANGED <<snd, adr, parked, held, resv, rw>>
 
 \* the send (completed or in progress) that carries value v, as [c, r, p, done, ok]
 SendOf(v) == IF \E i \in 1..Len(snd) : snd[i].v = v /\ snd[i].ok
-             THEN LET i == CHOOSE i \in 1..Len(snd) : snd[i].v = v /\ snd[i].ok IN [c |-> snd[i].c, r |-> snd[i].r, p |-> snd[i].p, known |-> TRUE]
+             THEN LET i == CHOOSE i \in 1..Len(snd) : snd[i].v = v /\ snd[i].ok IN [c |-> snd[i].c, r |-> snd[i].r, p |-> snd[i].p, known |-> TRUE, ch |-> snd[i].ch]
              ELSE IF \E p \in Procs : cur[p].op = "send" /\ cur[p].v = v
-             THEN LET p == CHOOSE p \in Procs : cur[p].op = "send" /\ cur[p].v = v IN [c |-> cur[p].c, r |-> 1000000, p |-> p, known |-> TRUE]
-             ELSE [c |-> 0, r |-> 0, p |-> -1, known |-> FALSE]
+             THEN LET p == CHOOSE p \in Procs : cur[p].op = "send" /\ cur[p].v = v IN [c |-> cur[p].c, r |-> 1000000, p |-> p, known |-> TRUE, ch |-> cur[p].ch]
+             ELSE [c |-> 0, r |-> 0, p |-> -1, known |-> FALSE, ch |-> FALSE]
 
 \* a send (interval c..r) that overlaps the creation or the removal of some listener: "during churn"
 Big == 1000000
 ChurnedCR(c, r) == \/ \E s \in Ls : lis[s].cc > 0 /\ lis[s].cc < r /\ lis[s].cr > c
                    \/ \E s \in Ls : lis[s].dc > 0 /\ lis[s].dc < r /\ (IF lis[s].dr = 0 THEN Big ELSE lis[s].dr) > c
                    \/ \E p \in Procs : cur[p].op \in {"create", "drop"} /\ cur[p].c < r
+\* with the atomic operations recorded, "during churn" is exact: the send overlapped a window in which the live-listener list (or its
+\* count) was being rewritten; without them it is approximated by the create / drop calls in progress
+ChurnedS(so) == IF rw.on THEN so.ch ELSE ChurnedCR(so.c, so.r)
 Tag(name, churned) == IF churned THEN name \o "DuringChurn" ELSE name
 
 \* verdict on a delivery of v (with payload address a) to listener s
 DeliveryBad(s, v, a) ==
     LET so == SendOf(v) IN
     IF On("InvNoInvention") /\ ~so.known THEN "InvNoInvention"
-    ELSE IF On("InvAtMostOncePerListener") /\ v \in Range(lis[s].del) THEN Tag("InvAtMostOncePerListener", so.known /\ ChurnedCR(so.c, so.r))
+    ELSE IF On("InvAtMostOncePerListener") /\ v \in Range(lis[s].del) THEN Tag("InvAtMostOncePerListener", so.known /\ ChurnedS(so))
     ELSE IF On("InvOnlyLifetimeEvents") /\ so.known /\ lis[s].how = "new" /\ so.r < lis[s].cc THEN "InvOnlyLifetimeEvents"
     ELSE IF On("InvProducerOrder") /\ so.known /\ (\E u \in Range(lis[s].del) : SendOf(u).p = so.p /\ SendOf(u).c > so.c) THEN "InvProducerOrder"
     ELSE IF On("InvSamePayload") /\ a # 0 /\ (\E x \in adr : x[1] = v /\ x[2] # a) THEN "InvSamePayload"
@@ -92,7 +100,7 @@ DeliveryBad(s, v, a) ==
 TRet ==
     /\ Ev.k = "ret" /\ ~IsNopRet
     /\ IF cur[P].op = "send"
-       THEN /\ snd' = Append(snd, [v |-> cur[P].v, c |-> cur[P].c, r |-> l, ok |-> Ev.x.ok, p |-> P])
+       THEN /\ snd' = Append(snd, [v |-> cur[P].v, c |-> cur[P].c, r |-> l, ok |-> Ev.x.ok, p |-> P, ch |-> cur[P].ch])
             /\ cur' = [cur EXCEPT ![P] = NoCur]
             /\ resv' = IF Ev.fn = "send_reserved" /\ Ev.x.ok THEN resv - 1 ELSE resv
             /\ UNCHANGED <<lis, adr, held, churn>>
@@ -121,13 +129,24 @@ TRet ==
             /\ held' = IF Ev.fn = "release" /\ Ev.x.ok THEN held - 1 ELSE IF Ev.fn = "release_all" THEN held - Ev.x.v ELSE held
             /\ cur' = IF cur[P].op = "running" THEN [cur EXCEPT ![P] = NoCur] ELSE cur
             /\ UNCHANGED <<snd, lis, adr, churn>>
-    /\ UNCHANGED <<parked, drv, cancelled>>
+    /\ UNCHANGED <<parked, drv, cancelled, rw>>
+
+\* the window in which the live-listener list is inconsistent (only seen when atomic operations are recorded)
+RwOpens == Ev.k = "op" /\ Ev.fld = "used_streams_count" /\ ((Ev.fn = "create_stream_id" /\ Ev.o = "fa") \/ (Ev.fn = "report_stream_dropped" /\ Ev.o = "fs"))
+RwCloses == Ev.k = "op" /\ Ev.fn = "sync_vacant_and_used_streams" /\ Ev.fld = "streams_lock" /\ Ev.o = "st"
 
 TNote == \/ /\ Ev.k = "park" /\ parked' = [parked EXCEPT ![P] = TRUE]
-            /\ UNCHANGED <<snd, cur, lis, adr, drv, cancelled, held, resv, churn>>
+            /\ UNCHANGED <<snd, cur, lis, adr, drv, cancelled, held, resv, churn, rw>>
          \/ /\ Ev.k = "unpark" /\ parked' = [parked EXCEPT ![P] = FALSE]
-            /\ UNCHANGED <<snd, cur, lis, adr, drv, cancelled, held, resv, churn>>
-         \/ /\ Ev.k \in {"op", "wake", "panic", "suspended"} /\ UNCHANGED vars
+            /\ UNCHANGED <<snd, cur, lis, adr, drv, cancelled, held, resv, churn, rw>>
+         \/ /\ RwOpens
+            /\ rw' = [rw EXCEPT !.open = @ \cup {P}]
+            /\ cur' = [p \in Procs |-> IF cur[p].op = "send" THEN [cur[p] EXCEPT !.ch = TRUE] ELSE cur[p]]     \* every send in progress overlaps it
+            /\ UNCHANGED <<snd, lis, adr, parked, drv, cancelled, held, resv, churn>>
+         \/ /\ RwCloses
+            /\ rw' = [rw EXCEPT !.open = @ \ {P}]
+            /\ UNCHANGED <<snd, cur, lis, adr, parked, drv, cancelled, held, resv, churn>>
+         \/ /\ Ev.k \in {"op", "wake", "panic", "suspended"} /\ ~RwOpens /\ ~RwCloses /\ UNCHANGED vars
 
 TFinal == Ev.k = "final" /\ UNCHANGED vars
 
@@ -145,7 +164,7 @@ Within(i, s) == /\ lis[s].st # "none"
                 /\ (cancelled = 0 \/ snd[i].r < cancelled)
 \* listeners that are still there at the end and whose queue was emptied (by their own polls and the final drain)
 Complete(x, s) == lis[s].st = "live" /\ x.drained /\ lis[s].how # "old"
-Churned(i) == ChurnedCR(snd[i].c, snd[i].r)
+Churned(i) == IF rw.on THEN snd[i].ch ELSE ChurnedCR(snd[i].c, snd[i].r)
 MissingP(x, plain) == \E s \in Ls : Complete(x, s) /\ (\E i \in Accepted : Within(i, s) /\ snd[i].v \notin Got(x, s) /\ (plain => ~Churned(i)))
 Missing(x) == MissingP(x, FALSE)
 \* gap freedom per producer: between two delivered events of one producer, every accepted one is delivered
@@ -156,9 +175,11 @@ GapP(x, plain) == \E s \in Ls : lis[s].st # "none" /\ lis[s].how # "old" /\
 Gap(x) == GapP(x, FALSE)
 \* a leftover that the final drain found must obey the same delivery rules
 LeftBadP(x, plain) == \E s \in Ls : \E i \in 1..Len(LeftOf(x, s)) :
-                          LET v == LeftOf(x, s)[i] IN DeliveryBad(s, v, 0) # "" /\ (plain => ~(SendOf(v).known /\ ChurnedCR(SendOf(v).c, SendOf(v).r)))
+                          LET v == LeftOf(x, s)[i] IN DeliveryBad(s, v, 0) # "" /\ (plain => ~(SendOf(v).known /\ ChurnedS(SendOf(v))))
 LeftBad(x) == LeftBadP(x, FALSE)
-AnyChurned == \E i \in Accepted : Churned(i)
+\* (storage verdict: a reference can also be stranded by a send that lands in a listener's queue between that listener's final drain and
+\*  its removal from the live list -- anywhere inside the drop call -- so here "churn" is the whole create / drop call, recorded or not)
+AnyChurned == \E i \in Accepted : Churned(i) \/ ChurnedCR(snd[i].c, snd[i].r)
 \* log channel: any two listeners order their common events identically
 Seen(x, s) == lis[s].del \o LeftOf(x, s)
 OrderClash(x) == \E a, b \in Ls : a # b /\ \E u, v \in Range(Seen(x, a)) \cap Range(Seen(x, b)) :
